@@ -1885,6 +1885,8 @@ def falsify(ctx, hints):
     for f in fs:
         eqi = (f.input or {}).get("equation")
         if eqi is not None and eqi < len(what):
+            if what[eqi][0] == "shift" and "shift-bare" in broken_feats:
+                continue          # already reported as pseudo:shift-not-parenthesised
             f.key = f"pseudo:formula:{what[eqi][0]}"
             f.what = f"{what[eqi][0]}(e{'' if what[eqi][1] is None else ', ' + str(what[eqi][1])}): " + f.what
         fails.append(f)
